@@ -208,7 +208,8 @@ def parse_spec(path):
             m = re.match(r'^rewrite\s+(R\d+)\s+"((?:[^"\\]|\\.)*)"\s+"((?:[^"\\]|\\.)*)"$', s)
             if not m:
                 raise ExtractError("%s:%d bad rewrite" % (path, ln))
-            cur_fn.rewrites.append((m.group(1), m.group(2), m.group(3)))
+            unesc = lambda x: x.replace("\\n", "\n").replace('\\"', '"')
+            cur_fn.rewrites.append((m.group(1), unesc(m.group(2)), unesc(m.group(3))))
             continue
         if s.startswith("attr "):
             cur_fn.attrs.append(s[5:].strip())
@@ -550,6 +551,29 @@ def check_rewrite_allowed(rule, a, b):
         # for PAT in EXPR {   ->  let mut IT = EXPR ; loop { match IT.next() { None => break, Some(PAT) => {
         # (checked structurally by the driver's rule table; accepted only for the listed site)
         return
+    if rule == "R17":
+        # match arm with an or-pattern:  P1 | P2 => { BODY }   ->   P1 => { BODY } P2 => { BODY }
+        depth, bar, arrow = 0, None, None
+        for i, t in enumerate(ta):
+            if t in "([{":
+                depth += 1
+            elif t in ")]}":
+                depth -= 1
+            elif t == "|" and depth == 0 and bar is None:
+                bar = i
+            elif t == "=>" and depth == 0 and arrow is None:
+                arrow = i
+        if bar is not None and arrow is not None and bar < arrow and ta[arrow + 1] == "{" and ta[-1] == "}":
+            p1, p2, body = ta[:bar], ta[bar + 1:arrow], ta[arrow + 1:]
+            if tb == p1 + ["=>"] + body + p2 + ["=>"] + body:
+                return
+        raise ExtractError("rewrite R17 must split `P1 | P2 => { B }` into `P1 => { B } P2 => { B }`")
+    if rule == "R16":
+        # a constructor guard `assert!(COND, "msg");` whose condition Verus cannot interpret (iterator `all` with a
+        # closure) is dropped from the verified text; the contract carries COND as a `requires` (documented panic)
+        if tb == [] and ta[:3] == ["assert", "!", "("] and ta[-2:] == [")", ";"]:
+            return
+        raise ExtractError("rewrite R16 only deletes one `assert!(...);` statement")
     if rule == "R13":
         # non-short-circuit `&` between two pure boolean comparisons -> `&&` (Verus rejects `&` on bools)
         if len(ta) == len(tb) and sum(1 for x, y in zip(ta, tb) if x != y) == 1 and all(x == y or (x == "&" and y == "&&") for x, y in zip(ta, tb)) \
